@@ -195,7 +195,8 @@ impl Worker {
 
     pub fn is_free(&self) -> bool {
         (match &self.assignment {
-            WorkerAssignment::Sn(a) => a.assigned_tasks.is_empty(),
+            // A prefilled task may be started by the worker at any time
+            WorkerAssignment::Sn(a) => a.assigned_tasks.is_empty() && a.prefilled_tasks.is_empty(),
             WorkerAssignment::Mn(_a) => false,
         }) && !self.is_stopping()
     }
